@@ -118,68 +118,81 @@ def run(tier):
     ck.require(set(disc) == {"Valid", "Invalid", "Unknown"}, "VerifyLayout variants Valid/Invalid/Unknown")
     names = {v: k for k, v in disc.items()}
 
-    # ---- V3: and / is_valid_* ------------------------------------------------------------------
+    # ---- V3: and / is_valid_* (every input of the finite domain, evaluated by lib/sem: any spelling -- nested or tuple match,
+    # matches!, ==, early return -- yields the same case summaries) ----------------------------------------------------
+    from lib import sem
+    ev = sem.Evaluator(fns, adts, inline=lambda p: p.startswith(("cglue::", "<cglue::")) or "::{closure" in p)
+
+    def var(n):
+        return ("agg", "adt", VL, n, ())
+
+    def verdict(outs):
+        if len(outs) == 1 and outs[0].kind == "ret":
+            r = sem.strip(outs[0].ret)
+            if r[0] == "agg" and r[1] == "adt":
+                return ("variant", r[3])
+            return r
+        return ("undecided", [repr(o)[:120] for o in outs])
     fn = fns.get(VL + "::and")
     if ck.require(fn is not None, "VerifyLayout::and"):
-        body = mir.Body(fn)
+        pure = True
         for a in disc:
             for b in disc:
-                env = {1: ("variant", a), 2: ("variant", b)}
-
-                def decide(o, a=a, b=b):
-                    if o == ("discr", ("arg", 1)):
-                        return disc[a]
-                    if o == ("discr", ("arg", 2)):
-                        return disc[b]
-                    return None
-                path = evaluate(body, decide)
-                got = result_on_path(body, path, env) if path else None
+                outs = ev.run(fn, [var(a), var(b)])
+                got = verdict(outs)
+                pure = pure and all(not [e for e in o.effects if e[0] in ("call", "icall")] for o in outs)
                 want = "Invalid" if "Invalid" in (a, b) else ("Unknown" if "Unknown" in (a, b) else "Valid")
                 ck.ob("V3-and-table", "and(%s,%s)" % (a, b), got == ("variant", want),
                       "VerifyLayout::and(%s, %s) evaluates to %s, the documented rule gives %s" % (a, b, got, want),
                       sample={"and": [a, b], "result": want})
-        ck.ob("V3-and-pure", "and", not body.calls(), "VerifyLayout::and calls other functions; the finite evaluation does not cover it")
+        ck.ob("V3-and-pure", "and", pure, "VerifyLayout::and calls functions the evaluation cannot see into")
     for nm, truth in (("is_valid_strict", {"Valid"}), ("is_valid_relaxed", {"Valid", "Unknown"})):
         fn = fns.get(VL + "::" + nm)
         if ck.require(fn is not None, "VerifyLayout::" + nm):
-            body = mir.Body(fn)
             for a in disc:
-                path = evaluate(body, lambda o, a=a: disc[a] if o == ("discr", ("arg", 1)) or o == ("discr", ("deref", ("arg", 1))) else None)
-                got = result_on_path(body, path, {}) if path else None
+                me = ("sym", "self")
+                outs = ev.run(fn, [me], init=[(("ext", me), (), var(a))])
+                got = verdict(outs)
                 ck.ob("V3-" + nm, "%s(%s)" % (nm, a), got == ("const", 1 if a in truth else 0), "%s(%s) evaluates to %s" % (nm, a, got))
 
     # ---- V4: compare_layouts ---------------------------------------------------------------------
     fn = fns.get("cglue::trait_group::compare_layouts")
     if ck.require(fn is not None, "compare_layouts"):
-        body = mir.Body(fn)
-        chk = [(i, t) for i, t in body.calls() if "check_layout_compatibility" in (mir.callee_path(t) or "")]
-        ck.ob("V4-one-comparison", "compare_layouts", len(chk) == 1, "compare_layouts must call abi_stable's comparison exactly once (found %d)" % len(chk))
-        if len(chk) == 1:
-            t = chk[0][1]
-            a0 = mir.strip(body.origin_operand(t["args"][0]))
-            a1 = mir.strip(body.origin_operand(t["args"][1]))
-            ck.ob("V4-argument-order", "compare_layouts", a0 == ("field", ("downcast", ("arg", 1), "Some"), "0") and a1 == ("field", ("downcast", ("arg", 2), "Some"), "0"),
-                  "compare_layouts passes (%s, %s) to the comparison; expected (expected, found) payloads in that order" % (mir.fmt(a0), mir.fmt(a1)),
-                  sample={"args": [mir.fmt(a0), mir.fmt(a1)]})
-            for e in (0, 1):
-                for f_ in (0, 1):
-                    for r in (0, 1):
-                        def decide(o, e=e, f_=f_, r=r):
-                            if o == ("discr", ("arg", 1)):
-                                return e
-                            if o == ("discr", ("arg", 2)):
-                                return f_
-                            if o[0] == "discr" and o[1][0] == "call" and o[1][1].endswith("into_result"):
-                                return r
-                            return None
-                        path = evaluate(body, decide)
-                        got = result_on_path(body, path, {}) if path else None
-                        want = "Unknown" if not (e and f_) else ("Valid" if r == 0 else "Invalid")
-                        compared = path is not None and chk[0][0] in path
-                        ck.ob("V4-verdict-table", "compare(%s,%s,%s)" % ("Some" if e else "None", "Some" if f_ else "None", "Ok" if r == 0 else "Err"),
-                              got == ("variant", want) and compared == bool(e and f_),
-                              "compare_layouts(expected=%s, found=%s) with comparison result %s yields %s; must be %s" % (e, f_, r, got, want),
-                              sample={"expected": bool(e), "found": bool(f_), "cmp": "Ok" if r == 0 else "Err", "verdict": want})
+        E, F = ("sym", "expected"), ("sym", "found")
+
+        def opt(x):
+            return ("agg", "adt", "std::option::Option", "Some", (x,)) if x is not None else ("agg", "adt", "std::option::Option", "None", ())
+        n_cmp_sites = len([1 for _, t in mir.Body(fn).calls() if "check_layout_compatibility" in (mir.callee_path(t) or "")])
+        ck.ob("V4-one-comparison", "compare_layouts", n_cmp_sites == 1, "compare_layouts must call abi_stable's comparison at exactly one site (found %d)" % n_cmp_sites)
+        for e in (None, E):
+            for f_ in (None, F):
+                outs = ev.run(fn, [opt(e), opt(f_)])
+                label = "compare(%s,%s" % ("Some" if e else "None", "Some" if f_ else "None")
+                if not (e and f_):
+                    got = verdict(outs)
+                    cmp_calls = [c for o in outs for c in o.calls("check_layout_compatibility")]
+                    for r in ("Ok", "Err"):
+                        ck.ob("V4-verdict-table", "%s,%s)" % (label, r), got == ("variant", "Unknown") and not cmp_calls,
+                              "compare_layouts with a missing description yields %s (comparison called: %s); must be Unknown without comparing" % (got, bool(cmp_calls)),
+                              sample={"expected": bool(e), "found": bool(f_), "verdict": "Unknown"})
+                    continue
+                seen = {}
+                order_ok = True
+                for o in outs:
+                    cc = o.calls("check_layout_compatibility")
+                    if o.kind != "ret" or len(cc) != 1:
+                        seen["?"] = repr(o)[:160]
+                        continue
+                    order_ok = order_ok and sem.strip(cc[0][2][0]) == E and sem.strip(cc[0][2][1]) == F
+                    rs = [c[2] for c in o.conds if c[0] == "discr" and sem.contains(c[1], lambda x: x[0] == "call" and "check_layout_compatibility" in x[1])]
+                    r = sem.strip(o.ret)
+                    seen.setdefault(rs[0] if rs else "?", set()).add(r[3] if r[0] == "agg" else sem.fmt(r))
+                ck.ob("V4-argument-order", "compare_layouts", order_ok, "compare_layouts does not pass (expected, found) to the comparison in that order",
+                      sample={"args": ["expected", "found"]})
+                for r, want in (("Ok", "Valid"), ("Err", "Invalid")):
+                    ck.ob("V4-verdict-table", "%s,%s)" % (label, r), seen.get(r) == {want} and "?" not in seen,
+                          "compare_layouts(Some, Some) with comparison result %s yields %s; must be %s" % (r, seen.get(r) or seen.get("?"), want),
+                          sample={"expected": True, "found": True, "cmp": r, "verdict": want})
     fn = fns.get(VL + "::check")
     if ck.require(fn is not None, "VerifyLayout::check"):
         body = mir.Body(fn)
